@@ -229,7 +229,7 @@ def ob_sites(chk, ir):
                 raise PathCut('sink stop: redirect decided')
             H.stub('net/http.Redirect', redirect)
         try:
-            H, paths, path = sweep.run_route(ir, rt, budget_s=150, extra=extra, max_paths=40000)
+            H, paths, path = sweep.run_route(ir, rt, budget_s=450, extra=extra, max_paths=40000)
         except Unsupported as e:
             chk.obligation(f'redirect sites {rt["path"]}', '-', 'inconclusive', str(e)); continue
         if paths is None: continue
